@@ -10,6 +10,8 @@
 (*                  bind x (pattern variable / closure parameter) for the   *)
 (*                  block; "block" (if/else branch, while body, plain       *)
 (*                  block) binds nothing                                    *)
+(*    NextArm(x)    ends the current match arm and starts the next arm of   *)
+(*                  the same match, binding x                               *)
 (*    Close         closes the innermost open block                         *)
 (* and carries three resolutions of every use:                              *)
 (*    res   by the scope stack (the specification, innermost binding wins)  *)
@@ -34,9 +36,10 @@ VARIABLES toks,    \* Seq of [t, x, k, id, res]
           stack,   \* Seq of scopes; scope = Seq of <<name, id>>, innermost last
           impl,    \* implementation environment: Seq of <<name, id>>
           saved,   \* Seq of saved implementation environments (one per open block; <<>> marker when not copied)
+          kinds,   \* Seq of the kinds of the open blocks
           nextId
 
-vars == <<toks, stack, impl, saved, nextId>>
+vars == <<toks, stack, impl, saved, kinds, nextId>>
 
 \* ------------------------------------------------------------------ stack resolution (specification)
 RECURSIVE FindIn(_, _)
@@ -58,13 +61,13 @@ Let(x) ==
   /\ stack' = [stack EXCEPT ![Len(stack)] = Append(@, <<x, nextId>>)]
   /\ impl' = Append(impl, <<x, nextId>>)
   /\ nextId' = nextId + 1
-  /\ UNCHANGED saved
+  /\ UNCHANGED <<saved, kinds>>
 
 Use(x) ==
   /\ Len(toks) < MaxToks
   /\ toks' = Append(toks, [t |-> "use", x |-> x, k |-> "", id |-> 0,
                            res |-> Lookup(stack, x), ires |-> ImplLookup(impl, x)])
-  /\ UNCHANGED <<stack, impl, saved, nextId>>
+  /\ UNCHANGED <<stack, impl, saved, kinds, nextId>>
 
 Open(k, x) ==
   /\ Len(toks) + 1 < MaxToks          \* room for the matching Close
@@ -77,6 +80,17 @@ Open(k, x) ==
      /\ saved' = Append(saved, IF k \in ScopedKinds THEN [copied |-> TRUE, env |-> impl] ELSE [copied |-> FALSE, env |-> <<>>])
      /\ impl' = IF binds THEN Append(impl, <<x, nextId>>) ELSE impl
      /\ nextId' = IF binds THEN nextId + 1 ELSE nextId
+     /\ kinds' = Append(kinds, k)
+
+\* the next arm of the innermost open match: the previous arm's scope ends, a new one (binding x) begins
+NextArm(x) ==
+  /\ Len(stack) > 1 /\ Last(kinds) = "arm"
+  /\ Len(toks) + 1 < MaxToks
+  /\ toks' = Append(toks, [t |-> "arm", x |-> x, k |-> "arm", id |-> nextId, res |-> 0, ires |-> 0])
+  /\ stack' = [stack EXCEPT ![Len(stack)] = << <<x, nextId>> >>]
+  /\ impl' = Append(IF Last(saved).copied THEN Last(saved).env ELSE impl, <<x, nextId>>)
+  /\ nextId' = nextId + 1
+  /\ UNCHANGED <<saved, kinds>>
 
 Close ==
   /\ Len(stack) > 1
@@ -84,6 +98,7 @@ Close ==
   /\ stack' = Front(stack)
   /\ impl' = IF Last(saved).copied THEN Last(saved).env ELSE impl
   /\ saved' = Front(saved)
+  /\ kinds' = Front(kinds)
   /\ UNCHANGED nextId
 
 Init ==
@@ -91,12 +106,14 @@ Init ==
   /\ stack = << << <<"p", 1>> >> >>       \* the function parameter p
   /\ impl = << <<"p", 1>> >>
   /\ saved = <<>>
+  /\ kinds = <<>>
   /\ nextId = 2
 
 Next ==
   \/ \E x \in Names : Let(x) \/ Use(x)
   \/ \E x \in Names : \E k \in {"arm", "closure"} : Open(k, x)
   \/ Open("block", "")
+  \/ \E x \in Names : NextArm(x)
   \/ Close
 
 Spec == Init /\ [][Next]_vars
@@ -108,11 +125,14 @@ PathAt(ts, i) ==   \* path in effect just *before* token i is processed
   IF i = 1 THEN <<>>
   ELSE LET p == PathAt(ts, i - 1) t == ts[i - 1] IN
        IF t.t = "open" THEN Append(p, i - 1)
+       ELSE IF t.t = "arm" THEN Append(Front(p), i - 1)
        ELSE IF t.t = "close" THEN Front(p)
        ELSE p
 IsPrefix2(a, b) == Len(a) <= Len(b) /\ SubSeq(b, 1, Len(a)) = a
 \* block in which the binder introduced at token j lives
-BinderPath(ts, j) == IF ts[j].t = "open" THEN Append(PathAt(ts, j), j) ELSE PathAt(ts, j)
+BinderPath(ts, j) == IF ts[j].t = "open" THEN Append(PathAt(ts, j), j)
+                     ELSE IF ts[j].t = "arm" THEN Append(Front(PathAt(ts, j)), j)
+                     ELSE PathAt(ts, j)
 Binders(ts, x, i) == {j \in 1..(i - 1) : ts[j].id # 0 /\ ts[j].x = x /\ IsPrefix2(BinderPath(ts, j), PathAt(ts, i))}
 Decl(ts, i) ==
   LET B == Binders(ts, ts[i].x, i) IN
